@@ -281,7 +281,11 @@ def build():
          ensures=[("W3: ejecting_ball announces the eject to the target (playfields count it as requested)",
                    "one_post('post_async', '_ejecting_ball', balls=1, target=eject_request.target, "
                    "source=self.ball_device, mechanical_eject=eject_request.player_controlled, num_attempts=eject_try)")],
-         modifies=[], raises={}, emits=lambda I, env, res: None)
+         modifies=[], raises={},
+         emits=call_emit("_post_ejecting_event", "eject_try", post=("post_async", "_ejecting_ball", lambda I, env: dict(
+             balls=VInt(1), target=req_target(I, env), source=I.read_field(env["self"].ref, "ball_device"),
+             mechanical_eject=I.read_field(I.force(env["eject_request"]).ref, "player_controlled"),
+             num_attempts=env["eject_try"]))))
     C.fn("OutgoingBallsHandler._handle_eject_success", params=REQP,
          ensures=[("W4: ball_eject_success(balls=1, target)", "n_posts() == 1")],
          modifies=[], raises={},
@@ -322,12 +326,84 @@ def build():
                    "n_handle_late_confirm_or_missing() == 0 else (n_handle_late_confirm_or_missing() == 1 and "
                    "last_state() == 'failed_confirm' and n_handle_eject_success() == 0)")],
          modifies=["incoming_ball_at_target.resolved", "eject_request.already_left",
-                   "incoming_ball_at_target.confirm.is_done"], raises={})
+                   "incoming_ball_at_target.confirm.is_done"], raises={},
+         emits=call_emit("_handle_confirm"), call_ensures=[])
 
     # ---- the eject loop
-    C.ext("OutgoingBallsHandler._eject_ball", params=dict(eject_request=REQ, eject_try=Int), result=Bool,
-          model=None, external=True, ensures=[], emits=call_emit("_eject_ball", "eject_try"), modifies=[],
-          trusted_reason="one physical eject attempt (start_eject .. end_eject are C04 H2-H5); True iff confirmed")
+    # ---- one physical attempt: the counting lock taken by start_eject is released by end_eject on every exit
+    C.cls("EjectorI", fields={})
+    C.ext("EjectorI.eject_one_ball", model=ev_model("ejector.eject_one_ball"), trusted_reason="ejector (coil pulse etc., C08)")
+    C.ext("BallCountHandlerI.start_eject",
+          model=lambda I, env, a, k: (emit(I, "start_eject"), VObj(Obj("EjectTracker", ObjS("EjectTracker", {}),
+                                                                      I.fresh_name("eject_process"))))[1],
+          trusted_reason="BallCountHandler.start_eject (C04 H2/H3): takes the counting lock")
+    C.ext("BallCountHandlerI.end_eject",
+          model=lambda I, env, a, k: (emit(I, "end_eject", ball_left=a[1]), NONE)[1],
+          trusted_reason="BallCountHandler.end_eject (C04 H4/H5): releases the counting lock")
+    C.ext("BallCountHandlerI.handled_balls", is_property=True, model=lambda I, env, a, k: VInt(z3.Int("handled_balls")),
+          trusted_reason=T)
+    C.ext("BallCountHandlerI._set_ball_count", model=ev_model("_set_ball_count"), trusted_reason=T)
+    C.cls("CounterI", fields={})
+    C.ext("CounterI.count_balls", model=lambda I, env, a, k: VInt(z3.Int(I.fresh_name("physical_count"))),
+          trusted_reason="physical ball counter")
+    C.classes["BallCountHandlerI"].fields["counter"] = ObjS("CounterI")
+    C.ext("EjectTracker.will_eject", model=ev_model("will_eject"), trusted_reason="eject tracker")
+    C.ext("EjectTracker.wait_for_ball_left", model=lambda I, env, a, k: new_fut(I, "ball_left"), trusted_reason="eject tracker")
+    C.ext("EjectTracker.is_jammed", model=lambda I, env, a, k: VBool(z3.Bool(I.fresh_name("jammed"))), trusted_reason="eject tracker")
+    C.ext("EjectTracker.cancel", model=ev_model("tracker.cancel"), trusted_reason="eject tracker")
+    C.ext("EventManager.wait_for_event", model=lambda I, env, a, k: new_fut(I, "event_future"), trusted_reason="event future")
+
+    def util_any(I, a, k):
+        timeout = k.get("timeout")
+        can_timeout = timeout is not None and I.force(timeout).tag != "none"
+        futs = I.iter_conc(a[0])
+        i = I.ctx.fork(len(futs) + (1 if can_timeout else 0))
+        if i == len(futs):
+            I.raise_("TimeoutError", "timeout")
+        f = I.force(futs[i])
+        I.write_field(f.ref, "is_done", VBool(True))
+        return NONE
+    C.globals["Util.any"] = VFn("model", model=util_any)
+    C.cls("QueueI", fields={})
+    C.ext("QueueI.empty", model=lambda I, env, a, k: VBool(z3.Bool(I.fresh_name("queue_empty"))), trusted_reason="asyncio.Queue")
+    C.ext("QueueI.get_nowait", model=ev_model("queue.get_nowait"), trusted_reason="asyncio.Queue")
+    C.ext("QueueI.task_done", model=ev_model("queue.task_done"), trusted_reason="asyncio.Queue")
+    C.ext("BallDevice.lost_idle_ball", model=ev_model("lost_idle_ball"), trusted_reason="BallDevice.lost_idle_ball")
+    C.classes["BallDevice"].fields.update(dict(
+        ejector=Opt(ObjS("EjectorI")), tags=Seq(Str), counted_balls=Int,
+        config=Rec(confirm_eject_type=Str, ball_missing_timeouts=ObjS("TimeoutMap"), mechanical_eject=Bool,
+                   player_controlled_eject_event=Opt(Str))))
+    C.classes["OutgoingBallsHandler"].fields["ball_device"] = ObjS("BallDevice", C.classes["BallDevice"].fields)
+    C.classes["OutgoingBallsHandler"].fields["_eject_queue"] = ObjS("QueueI")
+    def add_incoming(I, env, a, k):
+        emit(I, "add_incoming_ball_to_target")
+        o = Obj("IncomingBall", IBP, I.fresh_name("incoming_ball_at_target"))
+        I.creating_new += 1
+        try:
+            I.write_field(o, "resolved", VInt(0))
+            I.write_field(o, "confirm", new_fut(I, "confirm"))
+        finally:
+            I.creating_new -= 1
+        return VObj(o)
+    C.ext("OutgoingBallsHandler._add_incoming_ball_to_target", model=add_incoming,
+          trusted_reason="registers the ball as incoming at the target (target bookkeeping)")
+    for h_ in ("start_eject", "end_eject"):
+        C.helpers["n_" + h_] = (lambda n_: lambda I: VInt(len(calls(I, n_))))(h_)
+
+    def end_eject_reports(I, result):
+        e = calls(I, "end_eject")
+        return VBool(I.eq(e[-1].args["ball_left"], result)) if e else VBool(False)
+    C.helpers["end_eject_reports"] = end_eject_reports
+    C.trace_helpers |= {"n_start_eject", "n_end_eject", "end_eject_reports"}
+    C.fn("OutgoingBallsHandler._eject_ball", params=dict(eject_request=REQ, eject_try=Int), result=Bool,
+         loops={0: LoopSpec(invariant=[], modifies=[])},
+         ensures=[("J1: one attempt takes the counting lock once (start_eject) and releases it once (end_eject) on "
+                   "every exit, so a failed or timed-out eject cannot leave the device stuck on its own lock",
+                   "n_start_eject() == 1 and n_end_eject() == 1"),
+                  ("J2: end_eject is told whether the ball left, and that is the result of the attempt",
+                   "end_eject_reports(result)")],
+         modifies=["eject_request.already_left"], raises={},
+         emits=call_emit("_eject_ball", "eject_try"), call_ensures=[])
     C.ext("OutgoingBallsHandler._skipping_ball", params=dict(target=ObjS("Target"), add_ball_to_target=Bool),
           result=Bool, model=None, external=True, ensures=[], emits=call_emit("_skipping_ball"), modifies=[],
           trusted_reason="an incoming ball skipped the device (not under contract)")
